@@ -30,6 +30,7 @@ const VIOL: usize = 5;
 const XPROC: usize = 6;
 const HOLDER_PID: usize = 7;
 const HASH_CHECKS: usize = 8;
+const ADMIN: usize = 9;
 
 impl Shared {
 	fn open(p: &Path) -> Shared {
@@ -46,7 +47,11 @@ impl Shared {
 }
 
 fn cfg() -> DbCfg {
-	let mut c = DbCfg::new(vec![col(false, false, false, false, CompressionType::NoCompression), col(true, false, false, false, CompressionType::NoCompression)]);
+	let mut c = DbCfg::new(vec![
+		col(false, false, false, false, CompressionType::NoCompression),
+		col(true, false, false, false, CompressionType::NoCompression),
+		pv::dbutil::multitree_col(false, false, false),
+	]);
 	c.background = true;
 	c
 }
@@ -79,6 +84,30 @@ fn opener_loop(dir: &Path, sh: &Shared, loops: u64, seed: u64, who: &str) -> Vec
 				// idle: failed opens of others must not change any file
 				let h0 = dir_hashes(dir);
 				std::thread::sleep(Duration::from_micros(r.range(200, 6000)));
+				if r.chance(1, 3) {
+					// the administration entry points open the database too: with this handle alive
+					// every one of them must be refused with the lock error and change nothing
+					let mut o = cfg().options(dir);
+					let (what, res): (&str, parity_db::Result<()>) = match r.below(5) {
+						0 => ("clear_column", parity_db::clear_column(dir, r.below(3) as u8)),
+						1 => ("reset_column", Db::reset_column(&mut o, r.below(3) as u8, None)),
+						2 => ("add_column", Db::add_column(&mut o, col(false, false, false, false, CompressionType::NoCompression))),
+						3 => ("drop_last_column", Db::drop_last_column(&mut o)),
+						_ => ("reset_column(new options)", Db::reset_column(&mut o, 0, Some(col(true, false, false, false, CompressionType::NoCompression)))),
+					};
+					sh.at(ADMIN).fetch_add(1, Ordering::SeqCst);
+					match res {
+						Err(Error::Locked(_)) => {},
+						Ok(()) => {
+							sh.at(VIOL).fetch_add(1, Ordering::SeqCst);
+							out.push(format!("{}: {} succeeded while a handle was alive", who, what));
+						},
+						Err(e) => {
+							sh.at(VIOL).fetch_add(1, Ordering::SeqCst);
+							out.push(format!("{}: {} against a live handle failed with {} instead of a lock error", who, what, e));
+						},
+					}
+				}
 				let h1 = dir_hashes(dir);
 				sh.at(HASH_CHECKS).fetch_add(1, Ordering::SeqCst);
 				if h0 != h1 {
@@ -136,6 +165,16 @@ pub fn child_main(a: &[String]) -> ! {
 			}
 		}
 	}
+	if a.get(4).map(|s| s.as_str()) == Some("once") {
+		match Db::open(&cfg().options(&dir)) {
+			Ok(db) => {
+				println!("ONCE-OK");
+				drop(db);
+			},
+			Err(e) => println!("ONCE-ERR {}", e),
+		}
+		std::process::exit(0)
+	}
 	let v = opener_loop(&dir, &sh, loops, seed, &format!("child process {}", std::process::id()));
 	for l in v {
 		println!("VIOLATION {}", l);
@@ -166,6 +205,14 @@ fn case(ctx: &Ctx, rep: &mut Report, case_seed: u64, variant: u64, replay_pendin
 		for i in 0..40u32 {
 			db.commit_changes(vec![(0u8, Operation::Set(format!("k{}", i).into_bytes(), vec![i as u8; 50])), (1u8, Operation::Set(format!("b{}", i).into_bytes(), vec![i as u8; 20]))]).unwrap();
 		}
+		db.commit_changes(vec![(
+			2u8,
+			Operation::InsertTree(
+				b"root-of-the-only-tree".to_vec(),
+				parity_db::NewNode { data: vec![1, 2, 3], children: vec![parity_db::NodeRef::New(parity_db::NewNode { data: vec![4, 5], children: vec![] })] },
+			),
+		)])
+		.unwrap();
 		if replay_pending {
 			// leave a long log to replay: many records logged + synced, nothing applied
 			for i in 0..ctx.tier.pick(1500u32, 6000) {
@@ -284,6 +331,43 @@ fn case(ctx: &Ctx, rep: &mut Report, case_seed: u64, variant: u64, replay_pendin
 	} else if msgs.is_empty() {
 		msgs.push("directory could not be opened within 20 s after the holder process was killed".into());
 	}
+	// ---- a tree reader that outlives its handle must not keep the directory locked
+	if msgs.is_empty() {
+		match Db::open(&opts) {
+			Ok(db) => {
+				let reader = db.get_tree(2, b"root-of-the-only-tree").ok().flatten();
+				if reader.is_none() {
+					msgs.push("the tree inserted at the beginning is not readable".into());
+				}
+				drop(db);
+				// in this process
+				match Db::open(&opts) {
+					Ok(d2) => drop(d2),
+					Err(e) => msgs.push(format!("open after drop failed with {} while only a tree reader of the dropped handle was still around", e)),
+				}
+				// and from another process
+				let out = std::process::Command::new(&exe)
+					.arg("--c18-child")
+					.arg(&dir)
+					.arg(&counter)
+					.arg("1")
+					.arg("7")
+					.arg("once")
+					.stdout(std::process::Stdio::piped())
+					.stderr(std::process::Stdio::null())
+					.output()
+					.expect("spawn child");
+				let so = String::from_utf8_lossy(&out.stdout).to_string();
+				if !so.contains("ONCE-OK") {
+					msgs.push(format!("open from another process after drop failed ({}) while only a tree reader of the dropped handle was still around", so.trim()));
+				}
+				rep.count("reopen_with_lingering_tree_reader", 1);
+				rep.evaluations += 2;
+				drop(reader);
+			},
+			Err(e) => msgs.push(format!("final open failed with {}", e)),
+		}
+	}
 	let ok = sh.at(OK).load(Ordering::SeqCst);
 	let locked = sh.at(LOCKED).load(Ordering::SeqCst);
 	rep.count("open_attempts", ok + locked + 2);
@@ -292,6 +376,8 @@ fn case(ctx: &Ctx, rep: &mut Report, case_seed: u64, variant: u64, replay_pendin
 	rep.count("cross_process_locked", sh.at(XPROC).load(Ordering::SeqCst));
 	rep.count("race_with_recovery", sh.at(RACE).load(Ordering::SeqCst));
 	rep.count("idle_hash_checks", sh.at(HASH_CHECKS).load(Ordering::SeqCst));
+	rep.count("admin_calls_against_live_handle", sh.at(ADMIN).load(Ordering::SeqCst));
+	rep.evaluations += sh.at(ADMIN).load(Ordering::SeqCst);
 	rep.evaluations += ok + locked + 2;
 	rep.seen(format!("replay{}|ok{}|locked{}|race{}", replay_pending as u8, (ok > 0) as u8, (locked > 0) as u8, (sh.at(RACE).load(Ordering::SeqCst) > 0) as u8));
 	rep.seen(format!("xproc{}|kill_reopen{}", (sh.at(XPROC).load(Ordering::SeqCst) > 0) as u8, reopened as u8));
@@ -301,6 +387,10 @@ fn case(ctx: &Ctx, rep: &mut Report, case_seed: u64, variant: u64, replay_pendin
 	if let Some(m) = msgs.first() {
 		let kind = if m.contains("other handle") {
 			"two_live_handles"
+		} else if m.contains("succeeded while a handle was alive") {
+			"admin_call_not_refused"
+		} else if m.contains("tree reader of the dropped handle") {
+			"still_locked_after_drop"
 		} else if m.contains("files changed") {
 			"refused_open_changed_files"
 		} else if m.contains("instead of a lock error") {
